@@ -166,18 +166,28 @@ def run(ctx):
         from qv.engine import fn_expr_rvalue, walk_expr
 
         def stores_in(e):
+            """Program stores (and `store.substore` for stores that are themselves structs of several qubit-bearing
+            collections) whose content flows into e"""
             out = set()
 
             def v(n):
                 if n[0] == "field" and n[1][0] == "param" and n[1][1] == 1:
                     out.add(n[2])
+                if n[0] == "field" and n[1][0] == "field" and n[1][1][0] == "param" and n[1][1][1] == 1:
+                    out.add("%s.%s" % (n[1][2], n[2]))
                 if n[0] == "call" and n[2]:
                     hs = db.by_path.get(n[1], [])
                     a0 = n[2][0]
                     if len(hs) == 1 and a0[0] == "param" and a0[1] == 1:
-                        for pth in k2.deep_read_paths(db, hs[0], 1, 2):
+                        for pth in k2.deep_read_paths(db, hs[0], 1, 3):
                             if pth:
                                 out.add(pth[0])
+                            if len(pth) >= 2:
+                                out.add("%s.%s" % (pth[0], pth[1]))
+                    if len(hs) == 1 and a0[0] == "field" and a0[1][0] == "param" and a0[1][1] == 1:
+                        for pth in k2.deep_read_paths(db, hs[0], 1, 2):
+                            if pth:
+                                out.add("%s.%s" % (a0[2], pth[0]))
 
             walk_expr(e, v)
             return out
@@ -190,7 +200,18 @@ def run(ctx):
                 recv = fn_expr_operand(f, t["args"][0])
                 if CACHE in c09.self_fields(recv):
                     writes.append((bb, stores_in(fn_expr_operand(f, t["args"][1]))))
-        for store in sorted(bearing):
+        # stores that are structs of several qubit-bearing collections must be covered collection by collection
+        padt = db.adts.get(PROGRAM)
+        sub_required = []
+        for fdef in padt["variants"][0]["fields"]:
+            if fdef["n"] not in bearing:
+                continue
+            ty = db.types[fdef["t"]]
+            if ty["k"] == "adt" and ty["path"] in db.adts and db.adts[ty["path"]]["kind"] == "Struct":
+                subs = [g_["n"] for g_ in db.adts[ty["path"]]["variants"][0]["fields"] if db.ty_contains(g_["t"], qpred)]
+                if len(subs) >= 2:
+                    sub_required += ["%s.%s" % (fdef["n"], x) for x in subs]
+        for store in sorted(bearing) + sub_required:
             blocks = {bb for bb, sts in writes if store in sts}
             key = "R4|rebuild-covers|%s|%s" % (f.path, store)
             ok = bool(blocks) and f.all_paths_pass(0, blocks)
@@ -230,6 +251,46 @@ def run(ctx):
             if not nonempty:
                 res.site("R2|literal|%s" % f.path, True, {"fn": f.path, "verdict": "ok (all qubit-bearing stores fresh)"})
     res.count("program_struct_literals", nlit, floor=3)
+    # ---- R5: the cache is only ever extended by add_instruction, so replacing a qubit-bearing definition (same key, new
+    #      value) leaves the replaced value's qubits behind unless the replacement triggers a rebuild
+    nrep = 0
+    for bb, t, c in add_i.calls():
+        if not c or not (c.get("name") or "").startswith("insert"):
+            continue
+        dty = db.types[add_i.locals[t["dest"]["l"]]["t"]]
+        if not (dty["k"] == "adt" and dty["path"] == "std::option::Option" and dty.get("args")):
+            continue
+        inner = db.types[dty["args"][0]]
+        if not (inner["k"] == "adt" and db.ty_contains(dty["args"][0], qpred)):
+            continue
+        vname = inner["path"].rsplit("::", 1)[-1]
+        if vname not in covered:
+            continue  # get_qubits does not report this kind (templates): replacing it cannot leave anything behind
+        nrep += 1
+        key = "K6|replaced-definition-stale-cache|%s" % vname
+        ok = False
+        dest = t["dest"]["l"]
+        for sb in range(len(add_i.blocks)):
+            tt = add_i.blocks[sb]["t"]
+            if tt["k"] != "switch":
+                continue
+            e = fn_expr_operand(add_i, tt["d"])
+            ns = []
+            walk_expr(e, ns.append)
+            if any(n[0] == "call" and n[3] == bb and n[1] == callee_path(c) for n in ns):
+                # some successor side calls rebuild_used_qubits before returning
+                for succ in set(add_i.succs(sb)):
+                    reb = {b2 for b2, t2, c2 in add_i.calls() if c2 and c2.get("name") == "rebuild_used_qubits"}
+                    if reb and any(b2 in add_i.reachable_blocks(succ) for b2 in reb) and not all(b2 in add_i.reachable_blocks(x) for x in set(add_i.succs(sb)) for b2 in reb):
+                        ok = True
+        # an unconditional rebuild after the insert is fine too
+        if not ok:
+            reb = {b2 for b2, t2, c2 in add_i.calls() if c2 and c2.get("name") == "rebuild_used_qubits"}
+            ok = bool(reb) and add_i.all_paths_pass(t.get("t", bb), reb)
+        res.site(key, True, {"insert": callee_path(c).rsplit("::", 1)[-1], "verdict": "ok" if ok else "VIOLATION"})
+        if not ok:
+            res.find(key, add_i.loc(t.get("sp")), "add_instruction replaces an existing %s (same key) without rebuilding the used-qubit cache: qubits mentioned only by the replaced definition stay in the set" % vname, "`DEFCAL X 0: Y 1` then `DEFCAL X 0: Y 2`: get_used_qubits() still contains 1, and the program differs from the one rebuilt from its own listing")
+    res.count("replaceable_qubit_bearing_definitions", nrep, floor=2)
     res.explanation = (
         "Who-may-write / mirror rule for the used-qubit cache: %d mutation sites of qubit-bearing stores (%s) and %d Program struct literals in the crate were enumerated; "
         "each must keep the cache in step on every path (CFG must-pass-through).  K2 coverage: of the %d Instruction variants whose payload type contains a Qubit, "
